@@ -118,6 +118,8 @@ def model_classes(mdl, ref=None, nblocks=None):
     c.append("symm-" + (mdl.get("symm") or {"mode": "default"})["mode"])
     if mdl.get("repeat"):
         c.append("repeated-prepare-compute")
+    if mdl.get("order_spins"):
+        c.append("spin-major-indices")
     if nblocks is not None:
         c.append("one-block" if nblocks == 1 else "multi-block")
     if ref is not None:
